@@ -672,7 +672,17 @@ func c09ParseCase(c *Cfg, src []byte, origin string) {
 	c.Case("parse "+H(string(src)), len(src) > 0)
 }
 
+var (
+	c09CorpusOnce  sync.Once
+	c09CorpusFiles [][]byte
+)
+
 func c09Corpus(c *Cfg) [][]byte {
+	c09CorpusOnce.Do(func() { c09CorpusFiles = c09CorpusLoad(c) })
+	return c09CorpusFiles
+}
+
+func c09CorpusLoad(c *Cfg) [][]byte {
 	repo := os.Getenv("VERIF_REPO")
 	if repo == "" {
 		repo = "/repo"
@@ -837,6 +847,15 @@ func c09ParserStream(c *Cfg, r *Rng) {
 
 func runC09(c *Cfg) {
 	r := NewRng(c.Seed)
+	// development aid: VERIF_C09_ONLY=token|scan runs one extension stream alone
+	switch os.Getenv("VERIF_C09_ONLY") {
+	case "token":
+		c09TokenStream(c, r.Sub())
+		return
+	case "scan":
+		c09ScanStreamRun(c, r.Sub())
+		return
+	}
 	c09QuoteStream(c, r.Sub())
 	c09UnquoteStream(c, r.Sub())
 	if !c.Focus {
@@ -844,6 +863,10 @@ func runC09(c *Cfg) {
 	}
 	c09NumIdentStream(c, r.Sub())
 	c09ParserStream(c, r.Sub())
+	// extension round (session 3); after the older streams so that their random streams
+	// (and the recorded evidence) are unchanged
+	c09TokenStream(c, r.Sub())
+	c09ScanStreamRun(c, r.Sub())
 }
 
 // ---- numbers and identifiers ---------------------------------------------------------
